@@ -100,3 +100,353 @@ Section Proofs.
     destruct (beq (b :: e) STR_TIMED_OUT); auto 6. destruct v; auto 6.
   Qed.
 End Proofs.
+
+(* ===================================================================================================
+   The refined handlers (response writer, partial operations, routes, broker state through IPC only)
+   =================================================================================================== *)
+From Coq Require Import Arith Lia.
+
+Lemma index_at_guarded : forall l i, (i < List.length l)%nat -> exists b, index_at l i = Ret b.
+Proof.
+  intros l i H. unfold index_at. destruct (nth_error l i) as [b|] eqn:E; [eauto|].
+  apply nth_error_None in E. lia.
+Qed.
+
+Lemma slice_from_guarded : forall pre s, has_prefix pre s = true -> slice_from s (List.length pre) = Ret (skipn (List.length pre) s).
+Proof.
+  intros pre s H. unfold slice_from.
+  assert (L : (List.length pre <= List.length s)%nat).
+  { revert s H. induction pre as [|a pre IH]; intros [|b s] H; cbn in *; try lia; try discriminate.
+    apply andb_prop in H. destruct H as [_ H]. apply IH in H. lia. }
+  apply Nat.leb_le in L. rewrite L. reflexivity.
+Qed.
+
+Lemma has_prefix_app : forall pre t, has_prefix pre (pre ++ t) = true.
+Proof. induction pre as [|a pre IH]; intros t; cbn; [reflexivity|]. rewrite N.eqb_refl, IH. reflexivity. Qed.
+
+Lemma has_prefix_split : forall pre s, has_prefix pre s = true -> s = pre ++ skipn (List.length pre) s.
+Proof.
+  induction pre as [|a pre IH]; intros [|b s] H; cbn in *; try reflexivity; try discriminate.
+  apply andb_prop in H. destruct H as [E H]. apply N.eqb_eq in E. subst. f_equal. apply IH. exact H.
+Qed.
+
+Lemma beq_refl : forall a, beq a a = true.
+Proof. induction a as [|x a IH]; cbn; [reflexivity|]. rewrite N.eqb_refl, IH. reflexivity. Qed.
+
+Lemma beq_true : forall a b, beq a b = true -> a = b.
+Proof.
+  induction a as [|x a IH]; intros [|y b] H; cbn in *; try reflexivity; try discriminate.
+  apply andb_prop in H. destruct H as [E H]. apply N.eqb_eq in E. subst. f_equal. apply IH. exact H.
+Qed.
+
+Lemma beq_length_neq : forall a b, List.length a <> List.length b -> beq a b = false.
+Proof.
+  intros a b H. destruct (beq a b) eqn:E; [|reflexivity]. apply beq_true in E. subst. congruence.
+Qed.
+
+Lemma write_header_ok : forall code w, 100 <= code -> code <= 999 -> exists w', write_header code w = Ret w' /\ w_cors w' = w_cors w.
+Proof.
+  intros code w H1 H2. unfold write_header.
+  replace (code <? 100) with false by (symmetry; apply N.ltb_ge; lia).
+  replace (999 <? code) with false by (symmetry; apply N.ltb_ge; lia). cbn.
+  destruct (w_code w); eexists; split; reflexivity.
+Qed.
+
+Lemma first_byte_legacy : forall body, exists b0,
+  (if (0 <? List.length body)%nat then index_at body 0 else Ret 0) = Ret b0 /\
+  ((0 <? List.length body)%nat && (b0 =? 123)) = is_legacy body.
+Proof. intros [|b body]; cbn; eauto. Qed.
+
+Section ServeProofs.
+  Variable St : Type.
+  Variable view : St -> bview.
+  Variable enc_req : bytes -> bytes -> bytes.
+  Variable dec_resp : bytes -> option cpresp.
+  Variable enc_err : bytes -> bytes.
+  Variable amp_dec : bytes -> option bytes.
+  Variable amp_arm : bytes -> bytes.
+  Variable ipc_client ipc_proxy ipc_answer : St -> bytes -> ipcres * St.
+
+  Notation handle_ := (handle St view enc_req dec_resp enc_err amp_dec amp_arm ipc_client ipc_proxy ipc_answer).
+  Notation serve_ := (serve_req St view enc_req dec_resp enc_err amp_dec amp_arm ipc_client ipc_proxy ipc_answer).
+  Notation run_ := (run_reqs St view enc_req dec_resp enc_err amp_dec amp_arm ipc_client ipc_proxy ipc_answer).
+  Notation reaches_ := (reaches_ipc amp_dec).
+
+  Ltac wh := unfold wstatus, write_header; cbn.
+
+  Lemma legacy_w_total : forall response w, legacy_w dec_resp H1 response w <> Panicked.
+  Proof.
+    intros response w. unfold legacy_w. destruct (dec_resp response) as [r|]; [|wh; destruct (w_code w); discriminate].
+    destruct (r_error r) as [|b e]; [discriminate|].
+    destruct (beq (b :: e) STR_NO_PROXIES); [wh; destruct (w_code w); discriminate|].
+    destruct (beq (b :: e) STR_TIMED_OUT); wh; destruct (w_code w); discriminate.
+  Qed.
+
+  Lemma client_offers_w_total : forall s q w, fst (client_offers_w St enc_req dec_resp ipc_client H1 s q w) <> Panicked.
+  Proof.
+    intros s q w. unfold client_offers_w. destruct (read_body (q_sent q)) as [body|]; [|wh; destruct (w_code w); discriminate].
+    destruct (0 <? List.length body)%nat eqn:L.
+    - apply Nat.ltb_lt in L. destruct (index_at_guarded body 0 L) as [b0 ->].
+      destruct (true && (b0 =? 123)); destruct (ipc_client s _) as [[response| | |] s']; cbn;
+        try (wh; destruct (w_code w); discriminate); try discriminate. apply legacy_w_total.
+    - cbn. destruct (ipc_client s body) as [[response| | |] s']; cbn; try (wh; destruct (w_code w); discriminate); try discriminate.
+  Qed.
+
+  Lemma post_w_total : forall ipc s q w, fst (post_w St ipc s q w) <> Panicked.
+  Proof.
+    intros ipc s q w. unfold post_w. destruct (read_body (q_sent q)) as [body|]; [|wh; destruct (w_code w); discriminate].
+    destruct (ipc s body) as [[response| | |] s']; cbn; try discriminate; wh; destruct (w_code w); discriminate.
+  Qed.
+
+  Lemma amp_w_total : forall s q w, fst (amp_w St enc_err amp_dec amp_arm ipc_client s q w) <> Panicked.
+  Proof.
+    intros s q w. unfold amp_w. destruct (has_prefix AMP_ROUTE_B (q_path q)) eqn:P.
+    - rewrite (slice_from_guarded _ _ P). destruct (beq _ (q_path q)); [wh; destruct (w_code w); discriminate|].
+      destruct (amp_dec _) as [body|].
+      + destruct (ipc_client s body) as [[response| | |] s']; cbn; try (wh; destruct (w_code w); discriminate).
+      + cbn. wh. destruct (w_code w); discriminate.
+    - rewrite beq_refl. wh. destruct (w_code w); discriminate.
+  Qed.
+
+  Lemma not_found_w_total : forall w, not_found_w w <> Panicked.
+  Proof. intros w. unfold not_found_w. wh. destruct (w_code w); discriminate. Qed.
+
+  (* no request reaches a panic in the repaired code: every index is guarded by the length test before it,
+     every slice by HasPrefix, every status code is within 100..999 *)
+  Theorem serve_never_panics_v1 : forall r s q,
+    fst (handle_ H1 r s q) <> Panicked /\ fst (serve_ H1 s q) <> Panicked.
+  Proof.
+    assert (Hh : forall r s q, fst (handle_ H1 r s q) <> Panicked).
+    { intros r s q. destruct r; cbn [handle]; unfold cors_wrap; try destruct (beq (q_method q) OPTIONS); cbn [fst]; unfold debug_w;
+        first [ discriminate | apply post_w_total | apply client_offers_w_total | apply amp_w_total | apply not_found_w_total
+              | (unfold metrics_w; destruct (v_metrics (view s)); [discriminate|apply not_found_w_total])
+              | (wh; discriminate) ]. }
+    intros r s q. split; [apply Hh|]. unfold serve_req. specialize (Hh (route_of (q_path q)) s q).
+    destruct (handle_ H1 (route_of (q_path q)) s q) as [o s']. cbn in *. destruct o; [discriminate|congruence].
+  Qed.
+
+  (* the pinned code: the legacy shim panics on any other error string *)
+  Theorem serve_v0_panics : forall s q offer r s',
+    route_of (q_path q) = RClient -> beq (q_method q) OPTIONS = false ->
+    read_body (q_sent q) = ReadOk offer -> is_legacy offer = true ->
+    ipc_client s (enc_req offer (header_get (q_hdrs q) NAT_HEADER)) = (IpcOk r, s') ->
+    dec_resp r = Some {| r_answer := []; r_error := bs "invalid NAT type" |} ->
+    fst (serve_ H0 s q) = Panicked.
+  Proof.
+    intros s q offer r s' Hr Hm Hb Hl Hi Hd. unfold serve_req. rewrite Hr. cbn [handle]. unfold cors_wrap. rewrite Hm.
+    unfold client_offers_w. rewrite Hb. destruct offer as [|b0 offer]; [discriminate|]. cbn in Hl. cbn [List.length Nat.ltb Nat.leb index_at nth_error].
+    cbn. rewrite Hl. cbn in Hi. rewrite Hi. unfold legacy_w. rewrite Hd. reflexivity.
+  Qed.
+
+  (* ---- the mux lets only paths with the prefix through to ampClientOffers, and then the prefix branch is dead ---- *)
+  Theorem route_amp_prefix : forall p, route_of p = RAmp -> exists t, p = AMP_ROUTE_B ++ t.
+  Proof.
+    intros p H. unfold route_of in H.
+    repeat match type of H with (if ?c then _ else _) = _ => destruct c eqn:?; try discriminate end.
+    exists (skipn (List.length AMP_ROUTE_B) p). apply has_prefix_split. assumption.
+  Qed.
+
+  Theorem amp_via_mux_no_prefix_error : forall s q w t,
+    q_path q = AMP_ROUTE_B ++ t ->
+    amp_w St enc_err amp_dec amp_arm ipc_client s q w =
+    match amp_dec t with
+    | Some body => let (r, s') := ipc_client s body in
+                   match r with
+                   | IpcOk response => (match write_header 200 w with Ret w' => Ret (write (amp_arm response) w') | Panicked => Panicked end, s')
+                   | _ => wstatus St 500 w s'
+                   end
+    | None => (match write_header 200 w with
+               | Ret w' => Ret (write (amp_arm (enc_err (bs "cannot decode URL path"))) w')
+               | Panicked => Panicked end, s)
+    end.
+  Proof.
+    intros s q w t Hp. unfold amp_w. rewrite Hp, has_prefix_app, (slice_from_guarded _ _ (has_prefix_app _ _)).
+    rewrite skipn_app, skipn_all, Nat.sub_diag. cbn [skipn app].
+    rewrite beq_length_neq; [reflexivity|]. rewrite app_length. cbn. lia.
+  Qed.
+
+  (* a path that does not start with the prefix (reachable only by calling the handler directly) is a 500 *)
+  Theorem amp_wrong_prefix : forall s q w, has_prefix AMP_ROUTE_B (q_path q) = false ->
+    amp_w St enc_err amp_dec amp_arm ipc_client s q w = wstatus St 500 w s.
+  Proof. intros s q w H. unfold amp_w. rewrite H, beq_refl. reflexivity. Qed.
+
+  (* ---- CORS preflight: every wrapped route answers OPTIONS with an empty 200 and does not touch the state ---- *)
+  Definition wrapped (r : route) : bool :=
+    match r with RProxy | RClient | RAnswer | RDebug | RMetrics | RAmp => true | _ => false end.
+  Theorem options_early_return : forall v r s q, wrapped r = true -> q_method q = OPTIONS ->
+    handle_ v r s q = (Ret (set_cors rw_new), s) /\
+    respond q (Ret (set_cors rw_new)) = Ret {| p_status := 200; p_body := []; p_cors := true |}.
+  Proof.
+    intros v r s q Hw Hm. split.
+    - destruct r; try discriminate; cbn [handle]; unfold cors_wrap; rewrite Hm, beq_refl; reflexivity.
+    - unfold respond, finish. cbn. destruct (beq (q_method q) _); reflexivity.
+  Qed.
+
+  (* ---- bodies beyond the limit: 400 on the three POST routes, state untouched ---- *)
+  Theorem oversize_is_400 : forall v r s q, (r = RProxy \/ r = RClient \/ r = RAnswer) ->
+    beq (q_method q) OPTIONS = false -> READ_LIMIT_N < N.of_nat (List.length (q_sent q)) ->
+    handle_ v r s q = (Ret {| w_code := Some 400; w_body := []; w_cors := true |}, s).
+  Proof.
+    intros v r s q Hr Hm Hl. assert (R : read_body (q_sent q) = ReadTooLarge).
+    { unfold read_body. apply N.ltb_lt in Hl. rewrite Hl. reflexivity. }
+    destruct Hr as [->|[->| ->]]; cbn [handle]; unfold cors_wrap; rewrite Hm; unfold post_w, client_offers_w; rewrite R; reflexivity.
+  Qed.
+
+  Theorem within_limit_read : forall q, N.of_nat (List.length (q_sent q)) <= READ_LIMIT_N -> read_body (q_sent q) = ReadOk (q_sent q).
+  Proof. intros q H. unfold read_body. replace (READ_LIMIT_N <? _) with false; [reflexivity|]. symmetry. apply N.ltb_ge. exact H. Qed.
+
+  (* ---- handlers change the broker state through IPC only ---- *)
+  Theorem no_ipc_state_unchanged : forall v s q, reaches_ q = false -> snd (serve_ v s q) = s.
+  Proof.
+    intros v s q H. unfold serve_req. destruct (handle_ v (route_of (q_path q)) s q) as [o s'] eqn:E. cbn.
+    unfold reaches_ipc in H. destruct (beq (q_method q) OPTIONS) eqn:M; cbn [negb andb] in H.
+    - destruct (route_of (q_path q)); cbn [handle] in E; unfold cors_wrap in E; rewrite ?M in E; inversion E; reflexivity.
+    - destruct (route_of (q_path q)) eqn:R; cbn [handle] in E; unfold cors_wrap in E; rewrite ?M in E;
+        try (inversion E; reflexivity).
+      + unfold within_limit in H. unfold post_w in E. destruct (read_body (q_sent q)); [discriminate|]. inversion E; reflexivity.
+      + unfold within_limit in H. unfold client_offers_w in E. destruct (read_body (q_sent q)); [discriminate|]. inversion E; reflexivity.
+      + unfold within_limit in H. unfold post_w in E. destruct (read_body (q_sent q)); [discriminate|]. inversion E; reflexivity.
+      + destruct (route_amp_prefix _ R) as [t Ht]. rewrite (amp_via_mux_no_prefix_error s q _ t Ht) in E.
+        rewrite Ht, skipn_app, skipn_all, Nat.sub_diag in H. cbn [skipn app] in H.
+        destruct (amp_dec t); [discriminate|]. inversion E; reflexivity.
+  Qed.
+
+  (* and a request that does reach IPC leaves exactly the state that IPC call leaves *)
+  Theorem ipc_state : forall v s q, reaches_ q = true ->
+    exists ipc body, In ipc [ipc_client; ipc_proxy; ipc_answer] /\ snd (serve_ v s q) = snd (ipc s body).
+  Proof.
+    intros v s q H. unfold serve_req. destruct (handle_ v (route_of (q_path q)) s q) as [o s'] eqn:E. cbn.
+    unfold reaches_ipc in H. destruct (beq (q_method q) OPTIONS) eqn:M; cbn [negb andb] in H; [discriminate|].
+    destruct (route_of (q_path q)) eqn:R; try discriminate; cbn [handle] in E; unfold cors_wrap in E; rewrite ?M in E.
+    - unfold within_limit in H. unfold post_w in E. destruct (read_body (q_sent q)) as [body|]; [|discriminate].
+      exists ipc_proxy, body. split; [cbn; auto|]. destruct (ipc_proxy s body). inversion E; reflexivity.
+    - unfold within_limit in H. unfold client_offers_w in E. destruct (read_body (q_sent q)) as [body|]; [|discriminate].
+      destruct (if (0 <? List.length body)%nat then index_at body 0 else Ret 0) as [b0|] eqn:F.
+      + exists ipc_client, (if (0 <? List.length body)%nat && (b0 =? 123) then enc_req body (header_get (q_hdrs q) NAT_HEADER) else body).
+        split; [cbn; auto|]. destruct (ipc_client s _) as [[response| | |] s2]; inversion E; reflexivity.
+      + exfalso. destruct (0 <? List.length body)%nat eqn:L; [|discriminate]. apply Nat.ltb_lt in L.
+        destruct (index_at_guarded body 0 L) as [b Hb]. congruence.
+    - unfold within_limit in H. unfold post_w in E. destruct (read_body (q_sent q)) as [body|]; [|discriminate].
+      exists ipc_answer, body. split; [cbn; auto|]. destruct (ipc_answer s body). inversion E; reflexivity.
+    - destruct (route_amp_prefix _ R) as [t Ht]. rewrite (amp_via_mux_no_prefix_error s q _ t Ht) in E.
+      rewrite Ht, skipn_app, skipn_all, Nat.sub_diag in H. cbn [skipn app] in H.
+      destruct (amp_dec t) as [body|]; [|discriminate]. exists ipc_client, body. split; [cbn; auto|].
+      destruct (ipc_client s body) as [[response| | |] s2]; inversion E; reflexivity.
+  Qed.
+
+  (* history: taking any set of requests that do not reach IPC (malformed AMP paths, oversize bodies, preflights,
+     unknown routes, /debug, /metrics, /prometheus, /robots.txt ...) out of a history changes no other response *)
+  Theorem history_drop : forall v (drop : hreq -> bool),
+    (forall q, drop q = true -> reaches_ q = false) ->
+    forall qs s,
+      filter (fun p => negb (drop (fst p))) (run_ v s qs) = run_ v s (filter (fun q => negb (drop q)) qs).
+  Proof.
+    intros v drop Hd. induction qs as [|q qs IH]; intros s; [reflexivity|].
+    cbn [run_reqs filter]. destruct (serve_ v s q) as [o s'] eqn:E. cbn [filter fst].
+    destruct (drop q) eqn:D; cbn [negb].
+    - assert (s' = s) by (rewrite <- (no_ipc_state_unchanged v s q (Hd q D)), E; reflexivity). subst s'. apply IH.
+    - cbn [run_reqs]. rewrite E. f_equal. apply IH.
+  Qed.
+
+  Lemma run_app_nonempty : forall v pre q s, run_ v s (pre ++ [q]) <> [].
+  Proof. intros v [|p pre] q s; cbn [app run_reqs]; destruct (serve_req _ _ _ _ _ _ _ _ _ _ _ _ _); discriminate. Qed.
+
+  (* the response to a request is a function of (broker state, request): restated for the record, it is how
+     [serve_req] is typed; what needs proof is that a prefix of state-preserving requests is invisible *)
+  Corollary malformed_prefix_invisible : forall v pre s q,
+    Forall (fun p => reaches_ p = false) pre ->
+    fst (serve_ v s q) = match last (run_ v s (pre ++ [q])) (q, Panicked) with (_, o) => o end.
+  Proof.
+    intros v pre. induction pre as [|p pre IH]; intros s q Hf.
+    - cbn. destruct (serve_ v s q). reflexivity.
+    - inversion Hf as [|? ? Hp Hr]; subst. cbn [app run_reqs]. destruct (serve_ v s p) as [o s'] eqn:E.
+      assert (s' = s) by (rewrite <- (no_ipc_state_unchanged v s p Hp), E; reflexivity). subst s'.
+      rewrite (IH s q Hr). destruct (run_ v s (pre ++ [q])) eqn:R; [|reflexivity].
+      exfalso. exact (run_app_nonempty v pre q s R).
+  Qed.
+
+  (* ---- the refined client handler computes the total function of the first model ---- *)
+  Definition hresp_of (o : outc rw) : hresp :=
+    match o with Ret w => HResp (match w_code w with Some c => c | None => 200 end) (w_body w) | Panicked => HPanic end.
+
+  Theorem client_offers_refines : forall v s q,
+    hresp_of (fst (client_offers_w St enc_req dec_resp ipc_client v s q (set_cors rw_new))) =
+    client_offers enc_req dec_resp (fun b => fst (ipc_client s b)) v (read_body (q_sent q)) (header_get (q_hdrs q) NAT_HEADER).
+  Proof.
+    intros v s q. unfold client_offers_w, client_offers. destruct (read_body (q_sent q)) as [body|]; [|reflexivity].
+    destruct body as [|b0 body].
+    - cbn. destruct (ipc_client s []) as [[response| | |] s']; reflexivity.
+    - cbn [List.length Nat.ltb Nat.leb index_at nth_error is_legacy andb].
+      destruct (b0 =? 123); destruct (ipc_client s _) as [[response| | |] s']; cbn; try reflexivity.
+      unfold legacy_w, legacy_map. destruct (dec_resp response) as [r|]; [|reflexivity].
+      destruct (r_error r) as [|c e]; [reflexivity|].
+      destruct (beq (c :: e) STR_NO_PROXIES); [reflexivity|]. destruct (beq (c :: e) STR_TIMED_OUT); [reflexivity|].
+      destruct v; reflexivity.
+  Qed.
+
+  Theorem post_refines : forall ipc s q,
+    hresp_of (fst (post_w St ipc s q (set_cors rw_new))) =
+    ipc_status (match read_body (q_sent q) with ReadOk b => fst (ipc s b) | ReadTooLarge => IpcBadRequest end).
+  Proof.
+    intros ipc s q. unfold post_w. destruct (read_body (q_sent q)) as [body|]; [|reflexivity].
+    destruct (ipc s body) as [[response| | |] s']; reflexivity.
+  Qed.
+
+  (* ---- a legacy request and its versioned twin: same IPC call, same state afterwards, response = image under legacy_map ---- *)
+  Hypothesis enc_not_legacy : forall o n, is_legacy (enc_req o n) = false.
+  Hypothesis enc_fits : forall o n, N.of_nat (List.length (enc_req o n)) <= READ_LIMIT_N.
+
+  Theorem legacy_twin_same_state : forall v s q q' offer,
+    route_of (q_path q) = RClient -> route_of (q_path q') = RClient ->
+    beq (q_method q) OPTIONS = false -> beq (q_method q') OPTIONS = false ->
+    read_body (q_sent q) = ReadOk offer -> is_legacy offer = true ->
+    q_sent q' = enc_req offer (header_get (q_hdrs q) NAT_HEADER) ->
+    snd (serve_ v s q) = snd (serve_ v s q') /\
+    hresp_of (fst (handle_ v RClient s q)) =
+      match hresp_of (fst (handle_ v RClient s q')) with
+      | HResp 200 response => legacy_map dec_resp v response
+      | other => other
+      end.
+  Proof.
+    intros v s q q' offer Hr Hr' Hm Hm' Hb Hl Hs.
+    assert (Hb' : read_body (q_sent q') = ReadOk (q_sent q')) by (apply within_limit_read; rewrite Hs; apply enc_fits).
+    split.
+    - unfold serve_req. rewrite Hr, Hr'. cbn [handle]. unfold cors_wrap. rewrite Hm, Hm'. unfold client_offers_w. rewrite Hb, Hb'.
+      destruct (first_byte_legacy offer) as [b0 [F0 L0]]. destruct (first_byte_legacy (q_sent q')) as [b1 [F1 L1]].
+      rewrite F0, F1, L0, L1, Hl. rewrite Hs at 1. rewrite enc_not_legacy. rewrite Hs.
+      destruct (ipc_client s _) as [[response| | |] s']; reflexivity.
+    - cbn [handle]. unfold cors_wrap. rewrite Hm, Hm'. rewrite !client_offers_refines. rewrite Hb, Hb', Hs.
+      cbn [client_offers]. rewrite Hl, enc_not_legacy. destruct (fst (ipc_client s _)); reflexivity.
+  Qed.
+End ServeProofs.
+
+(* ---- header lookup ---- *)
+Lemma canon_aux_idem : forall l u, canon_aux u (canon_aux u l) = canon_aux u l.
+Proof.
+  induction l as [|c l IH]; intros u; [reflexivity|]. cbn [canon_aux].
+  set (c' := if u && is_lower c then c - 32 else if negb u && is_upper c then c + 32 else c).
+  assert (E : (if u && is_lower c' then c' - 32 else if negb u && is_upper c' then c' + 32 else c') = c').
+  { subst c'. unfold is_lower, is_upper. destruct u; cbn.
+    - destruct ((97 <=? c) && (c <=? 122)) eqn:A.
+      + apply andb_prop in A. destruct A as [A1 A2]. apply N.leb_le in A1. apply N.leb_le in A2.
+        replace (97 <=? c - 32) with false by (symmetry; apply N.leb_gt; lia). reflexivity.
+      + rewrite A. reflexivity.
+    - destruct ((65 <=? c) && (c <=? 90)) eqn:A.
+      + apply andb_prop in A. destruct A as [A1 A2]. apply N.leb_le in A1. apply N.leb_le in A2.
+        replace (c + 32 <=? 90) with false by (symmetry; apply N.leb_gt; lia). rewrite andb_false_r. reflexivity.
+      + rewrite A. reflexivity. }
+  rewrite E. f_equal. apply IH.
+Qed.
+
+(* the lookup does not depend on the spelling of the header name: any two names with the same canonical form *)
+Theorem header_get_spelling : forall lines k1 k2, canon_key k1 = canon_key k2 -> header_get lines k1 = header_get lines k2.
+Proof. intros lines k1 k2 H. unfold header_get. rewrite H. reflexivity. Qed.
+
+Theorem header_get_first : forall k v rest key, canon_key k = canon_key key -> header_get ((k, v) :: rest) key = trim_ows v.
+Proof. intros k v rest key H. unfold header_get. cbn. rewrite H, beq_refl. reflexivity. Qed.
+
+Theorem header_get_skip : forall k v rest key, canon_key k <> canon_key key -> header_get ((k, v) :: rest) key = header_get rest key.
+Proof.
+  intros k v rest key H. unfold header_get. cbn. destruct (beq (canon_key k) (canon_key key)) eqn:E; [|reflexivity].
+  apply beq_true in E. contradiction.
+Qed.
